@@ -49,7 +49,9 @@ def tie_tree(n):
     return {'f%d' % i: F(s) for i, s in enumerate(sizes)}
 
 
-ORDERS = [None, ['size'], ['size desc'], ['name'], ['size', 'name desc']]
+ORDERS = [None, ['size'], ['size desc'], ['name'], ['size', 'name desc'],
+          # keys that are calls whose first argument is a constant (the column stands in a later argument)
+          ["concat_ws('-', ext, name)"], ['least(99999999, size)', "concat('k', name) desc"], ['greatest(0, size) desc']]
 
 
 def groups(tier, seed):
@@ -57,6 +59,8 @@ def groups(tier, seed):
     cases = []
     for where, order, roots, mode, arc in itertools.product((False, True), range(len(ORDERS)), ('dot', 'two'),
                                                             (None, 'dfs'), (False, True)):
+        if order >= 5 and arc:
+            continue        # (what ext and name of an archive member are inside a function is not modelled here)
         cases.append({'where': where, 'order': order, 'roots': roots, 'mode': mode, 'arc': arc, 'rd': None})
     for i in range(0, len(cases), 8):
         yield {'tree': 'lim', 'cases': cases[i:i + 8]}
